@@ -1126,3 +1126,164 @@ Proof.
   apply run_root_x_correct; assumption.
 Qed.
 End T5.
+
+(* ------------------------------------------------------------------ *)
+(* (T6) ANY traversal order.  An order is checked by replaying it on a frontier of
+   available subtrees (initially the leaves): each step takes two distinct available
+   subtrees a, b and makes Node a b available instead; the last step is flagged as the
+   root and produces t.  sched_b is that check as a boolean function (a verified
+   checker: the harness can evaluate it on the order the real traverse() produced). *)
+Fixpoint tree_eqb (s t : tree) : bool :=
+  match s, t with
+  | Leaf a, Leaf b => Nat.eqb a b
+  | Node a b, Node c d => tree_eqb a c && tree_eqb b d
+  | _, _ => false
+  end.
+Definition tmem (a : tree) (F : list tree) : bool := existsb (tree_eqb a) F.
+Definition tremove (a : tree) (F : list tree) : list tree := filter (fun s => negb (tree_eqb s a)) F.
+
+Fixpoint sched_b (t : tree) (F : list tree) (order : list (bool * tree)) : bool :=
+  match order with
+  | [] => false
+  | (flag, s) :: rest =>
+      match s with
+      | Leaf _ => false
+      | Node a b =>
+          tmem a F && tmem b F && negb (tree_eqb a b) &&
+          match rest with
+          | [] => flag && tree_eqb s t
+          | _ :: _ => negb flag && sched_b t (s :: tremove a (tremove b F)) rest
+          end
+      end
+  end.
+Definition valid_order_b (t : tree) (order : list (bool * tree)) : bool :=
+  sched_b t (map Leaf (leaves t)) order.
+
+Lemma tree_eqb_eq s : forall t, tree_eqb s t = true <-> s = t.
+Proof.
+  induction s as [a|a IHa b IHb]; intros [c|c d]; cbn [tree_eqb]; try (split; [discriminate|intros H; discriminate H]).
+  - rewrite Nat.eqb_eq. split; [intros ->; reflexivity|intros H; injection H; auto].
+  - rewrite andb_true_iff, IHa, IHb. split; [intros [-> ->]; reflexivity|intros H; injection H; auto].
+Qed.
+Lemma tmem_In a F : tmem a F = true -> In a F.
+Proof.
+  unfold tmem. rewrite existsb_exists. intros (s & Hs & E). apply tree_eqb_eq in E. subst s. exact Hs.
+Qed.
+Lemma in_tremove s a F : In s (tremove a F) <-> In s F /\ s <> a.
+Proof.
+  unfold tremove. rewrite filter_In, negb_true_iff. split; intros [H1 H2]; split; try exact H1.
+  - intros E. apply tree_eqb_eq in E. congruence.
+  - destruct (tree_eqb s a) eqn:E; [apply tree_eqb_eq in E; contradiction|reflexivity].
+Qed.
+
+Lemma sched_b_node t order : forall F, sched_b t F order = true -> exists a b, t = Node a b.
+Proof.
+  induction order as [|[flag s] rest IH]; intros F H; cbn [sched_b] in H; [discriminate|].
+  destruct s as [k|a b]; [discriminate|].
+  apply andb_true_iff in H. destruct H as [_ Hrest].
+  destruct rest as [|p rest'].
+  - apply andb_true_iff in Hrest. destruct Hrest as [_ Ht]. apply tree_eqb_eq in Ht. exists a, b. congruence.
+  - apply andb_true_iff in Hrest. destruct Hrest as [_ Hs]. apply (IH _ Hs).
+Qed.
+
+Section T6.
+Variable n : net.
+Variable sl : list slinfo.
+Variable arr : nat -> ptensor.
+Variable e0 : env.
+Variable pe : bool.
+Notation dim := (dim n).
+Notation exec := (exec_instr n e0).
+Notation run_sub_x := (run_sub_x n sl arr e0 pe).
+Notation leaf_sarr := (leaf_sarr n sl arr e0).
+
+(* the available subtrees have pairwise disjoint leaves and the interpreter holds the
+   recursive value of each under its key *)
+Definition frontier_inv (F : list tree) (tm : temps) : Prop :=
+  (forall s1 s2, In s1 F -> In s2 F -> s1 <> s2 -> forall x, In x (leaves s1) -> ~ In x (leaves s2)) /\
+  (forall s, In s F -> tget (leaves s) tm = run_sub_x s).
+
+Lemma disjoint_keys_neq (a b : list nat) : (exists x, In x a) ->
+  (forall x, In x a -> ~ In x b) -> b <> a.
+Proof. intros [x Hx] Hd E. subst b. apply (Hd x Hx Hx). Qed.
+
+Lemma frontier_step F (tm : temps) a b : frontier_inv F tm -> In a F -> In b F -> a <> b ->
+  frontier_inv (Node a b :: tremove a (tremove b F))
+               (fold_left exec (node_instr n sl pe (false, Node a b)) tm).
+Proof.
+  intros [Hd Hv] Ha Hb Hab. rewrite node_instr_exec.
+  assert (Hold : forall s, In s (tremove a (tremove b F)) -> In s F /\ s <> a /\ s <> b).
+  { intros s Hs. apply in_tremove in Hs. destruct Hs as [Hs N1]. apply in_tremove in Hs. tauto. }
+  split.
+  - intros s1 s2 H1 H2 Hne x Hx1 Hx2.
+    destruct H1 as [<-|H1]; destruct H2 as [<-|H2].
+    + congruence.
+    + destruct (Hold s2 H2) as (H2F & N2a & N2b). cbn [leaves] in Hx1. apply in_app_iff in Hx1.
+      destruct Hx1 as [Hx1|Hx1]; [apply (Hd a s2 Ha H2F (not_eq_sym N2a) x Hx1 Hx2)|apply (Hd b s2 Hb H2F (not_eq_sym N2b) x Hx1 Hx2)].
+    + destruct (Hold s1 H1) as (H1F & N1a & N1b). cbn [leaves] in Hx2. apply in_app_iff in Hx2.
+      destruct Hx2 as [Hx2|Hx2]; [apply (Hd s1 a H1F Ha N1a x Hx1 Hx2)|apply (Hd s1 b H1F Hb N1b x Hx1 Hx2)].
+    + destruct (Hold s1 H1) as (H1F & _). destruct (Hold s2 H2) as (H2F & _).
+      apply (Hd s1 s2 H1F H2F Hne x Hx1 Hx2).
+  - intros s [<-|Hs].
+    + rewrite tget_tset_same. cbn [TdotFacts.run_sub_x]. rewrite (Hv a Ha), (Hv b Hb). reflexivity.
+    + destruct (Hold s Hs) as (HsF & Na & Nb).
+      assert (K1 : leaves s <> leaves a).
+      { apply disjoint_keys_neq; [apply leaves_nonempty|]. intros x Hx. apply (Hd a s Ha HsF (not_eq_sym Na) x Hx). }
+      assert (K2 : leaves s <> leaves b).
+      { apply disjoint_keys_neq; [apply leaves_nonempty|]. intros x Hx. apply (Hd b s Hb HsF (not_eq_sym Nb) x Hx). }
+      assert (K3 : leaves s <> leaves (Node a b)).
+      { destruct (leaves_nonempty a) as [x Hx]. intros E.
+        apply (Hd a s Ha HsF (not_eq_sym Na) x Hx). rewrite E. cbn [leaves]. apply in_app_iff. left; exact Hx. }
+      rewrite tget_tset_other, !tget_tdel_other by assumption. apply Hv, HsF.
+Qed.
+
+Lemma sched_exec t order : forall F (tm : temps), frontier_inv F tm -> sched_b t F order = true ->
+  tget (leaves t) (fold_left exec (flat_map (node_instr n sl pe) order) tm) = run_root_x n sl arr e0 pe t.
+Proof.
+  induction order as [|[flag s] rest IH]; intros F tm Inv H; cbn [sched_b] in H; [discriminate|].
+  destruct s as [k|a b]; [discriminate|].
+  apply andb_true_iff in H. destruct H as [H Hrest].
+  apply andb_true_iff in H. destruct H as [H Hab].
+  apply andb_true_iff in H. destruct H as [Ha Hb].
+  apply tmem_In in Ha, Hb.
+  assert (Nab : a <> b).
+  { apply negb_true_iff in Hab. intros E. apply tree_eqb_eq in E. congruence. }
+  cbn [flat_map]. rewrite fold_left_app.
+  destruct rest as [|p rest'].
+  - apply andb_true_iff in Hrest. destruct Hrest as [Hf Ht]. apply tree_eqb_eq in Ht. subst flag t.
+    cbn [flat_map fold_left]. rewrite node_instr_exec, tget_tset_same.
+    destruct Inv as [_ Hv]. rewrite (Hv a Ha), (Hv b Hb). reflexivity.
+  - apply andb_true_iff in Hrest. destruct Hrest as [Hf Hs]. apply negb_true_iff in Hf. subst flag.
+    apply (IH (Node a b :: tremove a (tremove b F))); [|exact Hs].
+    apply frontier_step; assumption.
+Qed.
+
+Theorem exec_program_any_order t order : NoDup (leaves t) -> valid_order_b t order = true ->
+  exec_program n sl arr e0 (program n sl pe t order) t = run_root_x n sl arr e0 pe t.
+Proof.
+  intros ND Hs. unfold exec_program, program, pre_instrs. rewrite fold_left_app.
+  change (flat_map _ (leaves t)) with (flat_map (pre_of_leaf n sl) (leaves t)).
+  destruct (exec_pre n sl e0 _ ND (init_temps n sl arr e0 t)) as [V _].
+  set (tm0 := fold_left exec (flat_map (pre_of_leaf n sl) (leaves t)) (init_temps n sl arr e0 t)) in *.
+  apply (sched_exec t order (map Leaf (leaves t)) tm0); [|exact Hs].
+  split.
+  - intros s1 s2 H1 H2 Hne x Hx1 Hx2. apply in_map_iff in H1, H2.
+    destruct H1 as (k1 & <- & _). destruct H2 as (k2 & <- & _). cbn [leaves In] in Hx1, Hx2.
+    apply Hne. destruct Hx1 as [<-|[]]. destruct Hx2 as [<-|[]]. reflexivity.
+  - intros s Hs'. apply in_map_iff in Hs'. destruct Hs' as (k & <- & Hk). cbn [leaves TdotFacts.run_sub_x].
+    rewrite (V k Hk). unfold init_temps. rewrite (tget_init n sl arr e0 _ k Hk).
+    unfold pre_of, TdotFacts.leaf_sarr. destruct (leaf_preproc n sl k) as [[term kept]|]; reflexivity.
+Qed.
+
+Theorem exec_program_any_order_correct t order : wf_net n -> full_tree n t ->
+  valid_order_b t order = true ->
+  let res := exec_program n sl arr e0 (program n sl pe t order) t in
+  fst res = map dim (out_inds n sl) /\
+  forall e, agree_removed sl e0 e -> snd res (map e (out_inds n sl)) = einsum_spec n sl arr e.
+Proof.
+  intros WF HF Hs res. pose proof (full_tree_inrange n _ HF) as HR.
+  unfold res. rewrite (exec_program_any_order t order (proj1 HR) Hs).
+  destruct (sched_b_node _ _ _ Hs) as (l & r & E). subst t.
+  apply run_root_x_correct; assumption.
+Qed.
+End T6.
